@@ -191,7 +191,7 @@ def violation(prop, kind, text, desc, algo, policy, costs_conc, mode, flags):
     return {
         "kind": kind,
         "text": f"{algo}/{policy} [{mode}]: {text}; input {desc}; costs {H.cost_json(costs_conc)}; concrete re-run: {cf[:2]}",
-        "signature": {"kind": kind, "algo": algo, "policy": policy, "desc": desc},
+        "signature": {"kind": kind, "algo": algo, "policy": policy, "desc": desc, "costs": H.cost_json(costs_conc)},
         "data": data, "confirmed": any(k == kind for k, _ in cf),
     }
 
@@ -462,3 +462,27 @@ def random_poly_input(rng, no, ns, nf, ordered, poly_object=True, poly_species=F
     if poly_species and ns >= 3:
         d["st"] = random_poly_tuple(rng, sl, max_arity)
     return d
+
+
+# ----------------------------------------------------------------------------- F-COHERENCE witnesses
+_W_DESC = {"ot": (("g0", "g1"), "g2"), "st": (("SA", "SB"), "SC"), "leafmap": {"g0": "SA", "g1": "SA", "g2": "SB"}}
+_W_SYN = {"g0": ["a"], "g1": ["a"], "g2": ["a"]}
+COHERENCE_WITNESSES = {
+    "C01": ("thl", dict(_W_DESC), {"spe": 5, "dup": 1, "hgt": 5, "floss": 1, "sloss": 1}),
+    "C02": ("ext_spfs", dict(_W_DESC, leafsyn=_W_SYN), {"spe": 4, "dup": 0, "hgt": 4, "floss": 1, "sloss": 1}),
+    "C03": ("superdtl", dict(_W_DESC, leafsyn=_W_SYN), {"spe": 5, "dup": 1, "hgt": 5, "floss": 1, "sloss": 0}),
+}
+
+
+def coherence_witness_result(prop):
+    """Replay the recorded F-COHERENCE witness (OUTSIDE the coherent region, hence outside the explored space).
+    Returns a runner result whose violation is matched by the 'known' entry of known_findings.json."""
+    algo, desc, costs = COHERENCE_WITNESSES[prop]
+    flags = {"opt", "valid", "empty"}
+    cf = concrete_failures(desc, algo, "any", costs, flags)
+    res = {"status": "ok", "paths": 1, "obligations": 1, "discharged": 0 if cf else 1, "violations": [], "nontrivial": False,
+           "item": {"witness": "F-COHERENCE", "algo": algo, "desc": desc, "costs": costs}}
+    if any(k == "suboptimal" for k, _ in cf):
+        res["violations"].append(violation(prop, "suboptimal", "F-COHERENCE witness (cost vector outside spe + 2*sloss <= dup + 2*floss)",
+                                           desc, algo, "any", costs, "concrete witness", flags))
+    return res
